@@ -94,7 +94,11 @@ def census_crate(run, doc, cfgname, entry_reach_only=True, full=None):
         for li, l in enumerate(f.mir["locals"]):
             if not l["freeze"]:
                 bare = re.sub(r"^&(mut )?", "", l["ty"])
-                if bare.startswith("impl ") or re.match(r"^[A-Z]\w*$", bare):
+                tparams = re.findall(r"(?<![\w:])([A-Z]\w*)(?![\w]|::)", bare)
+                paths = re.findall(r"((?:\w+::)+\w+)", bare)
+                transparent = all(re.match(r"^(std|core|alloc)::(option|result|vec|boxed|iter|slice|ops|cmp|marker|mem|array|collections::vec_deque|string|str)::", p_) for p_ in paths)
+                if bare.startswith("impl ") or re.match(r"^[A-Z]\w*$", bare) or (tparams and transparent):
+                    # (also: a std container that is Freeze whenever its parameters are -- Option<T>, (Option<T>, T), Vec<T>, Peekable<I> ...)
                     # a type parameter: Freeze is unknown for the parameter itself; every value it is instantiated
                     # with is a local of a caller inside the crate (no generic function is exported) and is checked there
                     continue
